@@ -55,18 +55,18 @@ VKINDS = ['stream', 'stream-update', 'antenna', 'array', 'array', 'array-update'
 
 
 def required(tier):
-    b = {f'kind:{k}': 8 for k in KINDS}
-    b.update({f'dfdt:{k}': 10 for k in ('integer', 'rounds-down', 'tie', 'rounds-up')})
-    b.update({f'prior:{k}': 10 for k in set(PRIOR)})
-    b.update({'first-noise-on-empty': 100, 'reestimate': 100, 'signal-before-first-noise': 10, 'zero-data': 20,
-              'signal-between-noise': 30, 'no-noise-raises': 50, 'share:on': 10, 'share:off': 10, 'tables:list': 5,
-              'tables:ndarray': 5, 'obs-later-identified': 5, 'max-rule-mean-from-std-table': 3,
-              'v:stream': 5, 'v:antenna': 5, 'v:array': 10, 'v:update': 5, 'v:two-pols': 5, 'v:background': 10,
-              'orient:asc': 10, 'orient:desc': 10})
+    b = {f'kind:{k}': 100 for k in KINDS}
+    b.update({'dfdt:integer': 40, 'dfdt:rounds-down': 150, 'dfdt:tie': 100, 'dfdt:rounds-up': 150})
+    b.update({f'prior:{k}': 100 for k in set(PRIOR)})
+    b.update({'first-noise-on-empty': 400, 'reestimate': 500, 'signal-before-first-noise': 100, 'zero-data': 150,
+              'signal-between-noise': 300, 'no-noise-raises': 500, 'share:on': 60, 'share:off': 60, 'tables:list': 200,
+              'tables:ndarray': 200, 'obs-later-identified': 50, 'max-rule-mean-from-std-table': 15,
+              'v:stream': 30, 'v:antenna': 15, 'v:array': 45, 'v:update': 30, 'v:two-pols': 30, 'v:background': 45,
+              'orient:asc': 300, 'orient:desc': 300})
     return {'buckets': b,
-            'counters': {'noise_calls': 500, 'stat_tests': 1500, 'samples_tested': 5_000_000, 'clip_removed_pixels': 1000,
-                         'snr_roundtrips': 1000, 'stream_std_checks': 200, 'voltage_series_tested': 100},
-            'checks': 8000, 'nontrivial': 300}
+            'counters': {'noise_calls': 1500, 'stat_tests': 4000, 'samples_tested': 15_000_000, 'clip_removed_pixels': 100_000,
+                         'snr_roundtrips': 8000, 'stream_std_checks': 1500, 'voltage_series_tested': 300},
+            'checks': 40000, 'nontrivial': 800}
 
 
 # ---------------------------------------------------------------------------------------------- generator
@@ -281,6 +281,20 @@ def run_tests(R, results, keybase, suffix=''):
     return allok
 
 
+def best_candidate(res, passing):
+    """At a rounding tie two k are admissible: report the admissible one that fits the variance best (the other one may pass
+    or fail, it is not the claim being judged); if none passes, the first."""
+    if not passing:
+        return res[0][0]
+
+    def dev(kk):
+        for name, ok, det in dict(res)[kk]:
+            if name == 'variance':
+                return abs(det['ratio'] - 1.0)
+        return 0.0
+    return min(passing, key=dev)
+
+
 class FrameModel:
     """What the property lets us know about the frame's noise estimates."""
 
@@ -412,8 +426,7 @@ def judge_first_noise(R, rn, fr, c, op, ret, kc, cls, stats, N):
                 k=kc, implied_k=(2.0 * x_mean ** 2 / gs ** 2 if gs else None))
         res = [(kk, rn.test_chi2(ret, x_mean, kk)) for kk in kc]
         Kd = [kk for kk, r in res if all(ok for _, ok, _ in r)]
-        use = Kd[0] if Kd else kc[0]
-        run_tests(R, dict(res)[use], 'chi2-noise', sfx)
+        run_tests(R, dict(res)[best_candidate(res, Kd)], 'chi2-noise', sfx)
         R.count('samples_tested', N)
         if Kd and Ks:
             R.check(bool(set(Kd) & set(Ks)), 'first-noise-estimate-std-inconsistent-with-distribution', Kd=Kd, Ks=Ks)
@@ -516,7 +529,7 @@ def judge_later_noise(R, rn, op, ret, kc, cls, N):
     if k == 'chi2':
         res = [(kk, rn.test_chi2(ret, op['mean'], kk)) for kk in kc]
         Kd = [kk for kk, r in res if all(ok for _, ok, _ in r)]
-        run_tests(R, dict(res)[Kd[0] if Kd else kc[0]], 'chi2-noise', sfx)
+        run_tests(R, dict(res)[best_candidate(res, Kd)], 'chi2-noise', sfx)
     elif k in ('gaussian', 'normal-alias'):
         run_tests(R, rn.test_gaussian(ret, op['mean'], op['std']), 'gaussian-noise')
     elif k == 'truncated':
